@@ -1,5 +1,6 @@
 import Posmint.Model.Arith
 import Posmint.Driver.Util
+import Posmint.Driver.Coins
 namespace Posmint.Driver
 open Posmint.Arith
 
@@ -41,6 +42,6 @@ def stepArith : List String → String
   | ["dec.ceil", a] => un (fun x => some (decCeil x)) a
   | ["dec.isint", a] => (match a.toInt? with | some x => showBool (decIsInteger x) | none => "bad-op")
   | ["dec.fromint", a] => un (fun x => some (decFromInt x)) a
-  | _ => "bad-op"
+  | toks => stepCoins toks
 
 end Posmint.Driver
